@@ -299,7 +299,7 @@ func main() {
 			if t == "thorough" {
 				return 200000
 			}
-			return 8000
+			return 16000
 		},
 		Floor: func(t string) int {
 			if t == "thorough" {
